@@ -17,18 +17,168 @@ package main
 // and every PAIR of gun settings on every class of response (two interacting options).
 
 import (
+	"context"
+	"errors"
 	"fmt"
 	"math/rand"
 	"net"
 	"regexp"
+	"sort"
 	"strconv"
 	"strings"
+	"sync"
 	"sync/atomic"
 
 	"verifharness/shot"
 
 	"github.com/spf13/afero"
+	"github.com/yandex/pandora/lib/mp"
+	"github.com/yandex/pandora/lib/netutil"
 )
+
+// r4Conn: what a successful dial of the scripted dialer returns (a connected tcp socket as far as the caching dialer can tell)
+type r4Conn struct {
+	net.Conn
+	remote *net.TCPAddr
+}
+
+func (c r4Conn) RemoteAddr() net.Addr { return c.remote }
+func (c r4Conn) Close() error         { return nil }
+
+// runDnsc (k=dnsc g=<goroutines> hosts=<n> rounds=<r>): the REAL netutil.NewDNSCachingDialer over a fresh
+// SimpleDNSCache under real concurrency, the way the instances of an http pool use it when the target is a host name:
+// g goroutines dial `h<i>:80` for every host, `rounds` times; the scripted dialer refuses every third attempt of a host
+// (by name or by the remembered address) and "resolves" host i to 10.<i/65536>.<i/256%256>.<i%256>. In a child process.
+// bad = results that are not the underlying dialer's (model: dnsDials is transparent), dials of an address that is
+// neither the name nor its resolution, hosts with a successful dial that the cache does not remember correctly.
+func runDnsc(m map[string]string) string {
+	g, hosts, rounds := atoi(m["g"], 2), atoi(m["hosts"], 1), atoi(m["rounds"], 1)
+	ipOf := func(i int) net.IP { return net.IPv4(10, byte(i>>16), byte(i>>8), byte(i)) }
+	attempts := make([]atomic.Int64, hosts)
+	okOf := make([]atomic.Int64, hosts)
+	var under, bad atomic.Int64
+	byIP := map[string]int{}
+	for i := 0; i < hosts; i++ {
+		byIP[net.JoinHostPort(ipOf(i).String(), "80")] = i
+	}
+	refused := errors.New("connection refused (scripted)")
+	script := netutil.DialerFunc(func(_ context.Context, network, addr string) (net.Conn, error) {
+		i := -1
+		if h, _, err := net.SplitHostPort(addr); err == nil && strings.HasPrefix(h, "h") {
+			i = atoi(h[1:], -1)
+		} else if k, ok := byIP[addr]; ok {
+			i = k
+		}
+		if i < 0 || i >= hosts || network != "tcp" {
+			bad.Add(1)
+			return nil, refused
+		}
+		if attempts[i].Add(1)%3 == 0 {
+			return nil, refused
+		}
+		okOf[i].Add(1)
+		under.Add(1)
+		return r4Conn{remote: &net.TCPAddr{IP: ipOf(i), Port: 80}}, nil
+	})
+	cache := &netutil.SimpleDNSCache{}
+	dial := netutil.NewDNSCachingDialer(script, cache)
+	var seen atomic.Int64
+	start := make(chan struct{})
+	var wg sync.WaitGroup
+	for w := 0; w < g; w++ {
+		wg.Add(1)
+		go func(w int) {
+			defer wg.Done()
+			<-start
+			for r := 0; r < rounds; r++ {
+				for i := 0; i < hosts; i++ {
+					conn, err := dial.DialContext(context.Background(), "tcp", "h"+strconv.Itoa((i+w)%hosts)+":80")
+					if (conn == nil) != (err != nil) {
+						bad.Add(1)
+					}
+					if err == nil {
+						seen.Add(1)
+					} else if err != refused {
+						bad.Add(1)
+					}
+				}
+			}
+		}(w)
+	}
+	close(start)
+	wg.Wait()
+	if seen.Load() != under.Load() {
+		bad.Add(1)
+	}
+	for i := 0; i < hosts; i++ {
+		got, ok := cache.Get("h" + strconv.Itoa(i) + ":80")
+		if okOf[i].Load() > 0 && (!ok || got != net.JoinHostPort(ipOf(i).String(), "80")) {
+			bad.Add(1)
+		}
+		if okOf[i].Load() == 0 && ok {
+			bad.Add(1)
+		}
+	}
+	return fmt.Sprintf("fatal=0 bad=%d", bad.Load())
+}
+
+// runIter (k=iter g=<goroutines> seg=<segments> calls=<calls per goroutine and segment>): the REAL shared NextIterator
+// under real concurrency, the way the instances of a scenario pool use it ([next] / [rand] in preprocessors): g goroutines
+// start together and call Next on the same fresh segments (and Rand in between). Runs in a child process: a
+// `fatal error: concurrent map writes` is not a panic. Observation: every segment handed out exactly the values
+// 0 … g*calls-1 (`dup` = values handed out twice, `gap` = values never handed out), Rand stayed inside [0, n).
+func runIter(m map[string]string) string {
+	g, segs, calls := atoi(m["g"], 2), atoi(m["seg"], 1), atoi(m["calls"], 1)
+	it := mp.NewNextIterator(int64(atoi(m["rs"], 1)))
+	got := make([][][]int, g)
+	start := make(chan struct{})
+	var wg sync.WaitGroup
+	var randBad atomic.Int64
+	for w := 0; w < g; w++ {
+		got[w] = make([][]int, segs)
+		wg.Add(1)
+		go func(w int) {
+			defer wg.Done()
+			<-start
+			for s := 0; s < segs; s++ {
+				name := "request.st" + strconv.Itoa(s) + ".postprocessor.v"
+				for c := 0; c < calls; c++ {
+					got[w][s] = append(got[w][s], it.Next(name))
+					if n := 1 + (w+s+c)%7; true {
+						if r := it.Rand(n); r < 0 || r >= n {
+							randBad.Add(1)
+						}
+					}
+				}
+			}
+		}(w)
+	}
+	close(start)
+	wg.Wait()
+	dup, gap := 0, 0
+	for s := 0; s < segs; s++ {
+		var all []int
+		for w := 0; w < g; w++ {
+			all = append(all, got[w][s]...)
+		}
+		sort.Ints(all)
+		for i, v := range all {
+			if i > 0 && v == all[i-1] {
+				dup++
+			}
+		}
+		seen := map[int]bool{}
+		for _, v := range all {
+			seen[v] = true
+		}
+		for v := 0; v < g*calls; v++ {
+			if !seen[v] {
+				gap++
+			}
+		}
+	}
+	return fmt.Sprintf("fatal=0 dup=%d gap=%d randbad=%d", dup, gap, randBad.Load())
+}
 
 var r4Seq atomic.Int64
 
@@ -239,6 +389,9 @@ func genRound4(r *rand.Rand, thorough bool, gridScripts []string, ccOf func(stri
 	out = append(out, "k=run gun=http tgt=live inst=1 m=2 sched=10x1000 reqs=s200.bjson:r200,s404:r404,actclose:f,s500.bx7:r500,s200.bx40.actmidclose:rb200")
 	out = append(out, "k=run gun=http tgt=live inst=2 m=4 sched=20x500 disc=1 reqs=s200.bjson:r200,s404:r404,actclose:f,s500.bx7:r500,s200.bx40.actmidclose:rb200")
 	out = append(out, "k=run gun=http tgt=live inst=1 m=2 sched=10x1000 disc=1 reqs=s200.bjson.actwait2700:r200,s404:r404,actclose:f,s500.bx7:r500,s200.bx40.actmidclose:rb200")
+	// … and WITHOUT discard_overflow a slow answer must not cost any token its shot (every sample carries a status / failure)
+	out = append(out, "k=run gun=http tgt=live inst=1 m=2 sched=10x1000 reqs=s200.bjson.actwait2700:r200,s404:r404,actclose:f,s500.bx7:r500,s200.bx40.actmidclose:rb200")
+	out = append(out, "k=run gun=http/scenario tgt=live inst=1 n=8 sched=10x800 steps=st0,s200.bjson.actwait2700,r200,J~result;st1,s404.bhtml,r404,-")
 	out = append(out, "k=run gun=http tgt=live inst=1 m=2 sched=10x1000 disc=1 agg=phout reqs=s503.bhtml.actwait2700:r503,s404:r404,actreset:f,s500.bx7:r500,s200.bx40.actmidclose:rb200")
 	out = append(out, "k=run gun=http/scenario tgt=live inst=1 n=8 sched=10x800 disc=1 steps=st0,s200.bjson.actwait2700,r200,J~result;st1,s404.bhtml,r404,J~result;st2,s200,r200,-")
 	out = append(out, "k=run gun=grpc tgt=grpc inst=1 m=2 sched=10x1000 disc=1 reqs=ok:0,code:5,code:99,garbage:1,nomethod:0")
@@ -247,6 +400,17 @@ func genRound4(r *rand.Rand, thorough bool, gridScripts []string, ccOf func(stri
 			out = append(out, fmt.Sprintf("k=run gun=http tgt=live inst=%d m=3 sched=12x1000 disc=%d reqs=s200.bjson.actwait%d:r200,s404:r404,actclose:f,s500.bx7:r500",
 				1+r.Intn(3), r.Intn(2), []int{300, 2300, 2700, 3200}[r.Intn(4)]))
 		}
+	}
+	// 6. the shared iterator itself under real concurrency (model: iterRun, theorem C19_iterator_interleaving): 2, 3 and
+	// many goroutines on fresh segments
+	for _, g := range []int{2, 3, 8, mul(16, 48)} {
+		out = append(out, fmt.Sprintf("k=iter g=%d seg=%d calls=%d rs=%d", g, mul(1500, 6000), 1+r.Intn(3), 1+r.Intn(1000)))
+		out = append(out, fmt.Sprintf("k=iter g=%d seg=%d calls=%d rs=%d", g, 2, mul(400, 4000), 1+r.Intn(1000)))
+	}
+	// 7. the DNS-caching dialer + SimpleDNSCache under real concurrency (model: dnsDials, C19_dns_cache_transparent):
+	// 1, 2, 3 and many goroutines filling the cache for fresh hosts at the same time
+	for _, g := range []int{1, 2, 3, mul(16, 48)} {
+		out = append(out, fmt.Sprintf("k=dnsc g=%d hosts=%d rounds=%d", g, mul(1500, 6000), 2+r.Intn(3)))
 	}
 	return out
 }
